@@ -65,6 +65,9 @@ def param_sets(sig, ctx):
     for r in range(0, len(keys) + 1):
         for sub in itertools.combinations(keys, r):
             yield {k: f'v_{k}' for k in sub}
+            if sub:
+                # an explicit null is a value like any other (for known names, unknown names and the context name alike)
+                yield {k: (None if i == 0 else f'v_{k}') for i, k in enumerate(sub)}
 
 
 def method_cfg(sig, ctx, positional, view, deco=False, via_registry=False, static=False):
